@@ -206,7 +206,9 @@ def _domops(pid):
 
 
 _DOM_RULE = ('histories of insert / destroy / transfer_within / transfer / clone_within / clone_into_external / clone_multiple_into_external over 1-3 real WeakDoms, '
-             'arguments drawn within the documented preconditions (moving an instance under its own descendant is excluded: no tree can represent it); '
+             'arguments drawn within the documented preconditions (moving an instance under its own descendant is excluded: no tree can represent it; the list given to clone_multiple_into_external may repeat an '
+             'instance or name an instance together with a descendant - nothing documented forbids it - and then any of the copies counts as the corresponding copy of a Ref target); '
+             'nodes carry 0-2 outward Ref properties, a self Ref, dangling Refs, pooled UniqueIds; '
              'random histories of 20-400 operations (few live nodes, many operations) plus the exhaustive enumeration of every history in the small scopes '
              'listed under exhaustive_scopes (all valid argument choices at every step); after EVERY step each DOM is walked through the public API and compared '
              'with a reference model executing the documented meaning of the step; ')
@@ -341,11 +343,12 @@ def _c14(m, tier, seed, rundir, extra):
 
 PLANS['C14'] = {
     'level': 'exploration',
-    'rule': ('generated attribute maps (0-40 entries, names incl. empty/multi-byte, all 19 types, every rotation id and BrickColor cycled, sequences of 0..1000 keypoints): '
+    'rule': ('generated attribute maps (0-40 entries, names incl. empty/multi-byte, all 19 types, every rotation id and BrickColor cycled, sequences of 0..4097 keypoints): '
              '(a) to_writer -> from_reader equals the source under the documented normalisations (String->BinaryString, rotation rule from the docs table); '
              '(b) refattr.py, an independent decoder written from docs/attributes.md, reads the written bytes to the same map; '
              '(c) blobs built by the independent encoder (entry order shuffled, axis-aligned rotations in long form, non-0/1 Bool bytes) decode to the map they describe; '
-             '(d) the PROP string in the binary file (refbin.py) and the base64 payload in the XML file (refxml.py) equal the to_writer bytes; '
+             '(d) a file holding three instances of one class (a longer map, the map under test, an empty map): every PROP string in the binary file (refbin.py) and every base64 payload in the XML file (refxml.py) '
+             'equals the to_writer bytes of that instance; '
              'non-trivial = map with >=2 entries; distinct = digest of the map / blob'),
     'floor': {'quick': 5000, 'thorough': 300000},
     'assumptions': ['refattr.py / refbin.py / refxml.py written from the documents', 'rotation bases from the docs table (rot.rs)'],
@@ -553,7 +556,8 @@ PLANS['C15'] = {
     'rule': ('every Migrate descriptor of the database (found by an independent walk; 12 at the pinned version) on subclasses of its owner, for every legacy value (all items of the property\'s enum in the database, '
              'all valid BrickColor numbers, both booleans, a pool of URIs incl. empty; quick tier: every 5th value, all descriptors and paths), with and without an explicit value for the new property: '
              'path w-bin / w-xml: DOM with the legacy name through the real writer and reader; path r-bin / r-xml: files that contain the legacy PROP chunk / element (built by refbin.py / plain text, both '
-             'chunk / element orders) through the real reader. All four must produce the same new canonical property with equal value, never the legacy name, the explicit value must win, and no path may fail. '
+             'chunk / element orders) through the real reader. On the write paths the instance under test stands in four positions of one file (alone; first and second child of a same-class parent that carries both '
+             'spellings; first child of a parent carrying only the legacy one) and must decode identically in all of them. All four paths must produce the same new canonical property with equal value, never the legacy name, the explicit value must win, and no path may fail. '
              'non-trivial = every case; distinct = (class, legacy property, value, presence)'),
     'floor': {'quick': 300, 'thorough': 3000},
     'exhaustive': {'thorough': True},
